@@ -61,6 +61,12 @@ func buildTree(rng *rand.Rand, full bool) *tree {
 		{Segments: []kit.Segment{{"simple", false}}, Methods: pick(simpleMethods), Actions: acts(kit.ActionSpec{Name: "sact"})},
 		{Segments: []kit.Segment{{"simple", false}, {"scoll", true}}, Methods: pick(allMethods), Finders: pick([]string{"f1"})},
 		{Segments: []kit.Segment{{"actions", false}}, Actions: acts(kit.ActionSpec{Name: "a1"}, kit.ActionSpec{Name: "a2"})},
+		// a deep branch: three siblings below a level-3 node (what a filter sees of the resource path must be the
+		// request's own path, whichever sibling was registered last)
+		{Segments: []kit.Segment{{"coll", true}, {"sub", true}, {"deep", false}}, Methods: []string{"get"}},
+		{Segments: []kit.Segment{{"coll", true}, {"sub", true}, {"deep", false}, {"leafa", true}}, Methods: []string{"get", "get_all", "delete"}, Finders: []string{"f1"}},
+		{Segments: []kit.Segment{{"coll", true}, {"sub", true}, {"deep", false}, {"leafb", false}}, Methods: []string{"get", "update"}, Actions: []kit.ActionSpec{{Name: "sact"}}},
+		{Segments: []kit.Segment{{"coll", true}, {"sub", true}, {"deep", false}, {"leafc", true}}, Methods: []string{"get", "batch_get"}},
 	}
 	t := &tree{Roots: map[string]*ref.Node{}}
 	for _, s := range specs {
@@ -423,19 +429,26 @@ func enumerate(t *tree, rng *rand.Rand, stride int) []request {
 		{"coll", "k1", "nosuch"}, {"coll", "k1", "sub", "k2", "deeper"}, {"coll", "k1", "ssub", "x"},
 		{"simple"}, {"simple", "scoll"}, {"simple", "scoll", "k9"}, {"simple", "x"}, {"simple", ""}, {"actions"},
 		{"nosuch"}, {"nosuch", "k"}, {"col"}, {"colll", "k1"}, {"coll", "__undecodable__"}, {"coll", "k1", "sub", "__undecodable__"},
+		// the deep branch (index >= deepFrom: sampled one case in four)
+		{"coll", "k1", "sub", "k2", "deep"}, {"coll", "k1", "sub", "k2", "deep", "leafa"}, {"coll", "k1", "sub", "k2", "deep", "leafa", "k3"},
+		{"coll", "k1", "sub", "k2", "deep", "leafb"}, {"coll", "k1", "sub", "k2", "deep", "leafc", "k3"}, {"coll", "k1", "sub", "k2", "deep", "leafc"},
 	}
+	const deepFrom = 22
 	qs := []string{"", "f1", "nope"}
 	acts := []string{"", "act", "eact", "sact", "a1", "nope"}
 	var out []request
 	n := 0
 	for _, v := range verbs {
 		for _, h := range headers {
-			for _, p := range paths {
+			for pi, p := range paths {
 				for _, q := range qs {
 					for _, ids := range []bool{false, true} {
 						for _, a := range acts {
 							n++
 							if stride > 1 && (n+len(v)+len(h))%stride != 0 {
+								continue
+							}
+							if pi >= deepFrom && n%4 != 0 {
 								continue
 							}
 							r := request{Req: ref.Req{Verb: v, Header: h, Segs: p, Q: q, IDs: ids, Action: a}}
